@@ -80,9 +80,9 @@ func (r *c12Reader) Read(p []byte) (int, error) {
 // down, so such inputs are not executed in the parallel sweeps; the allocation clause is decided on
 // crafted inputs in a sequential phase instead.  c12Dangerous predicts, by replaying the read pattern
 // of pkg/scale's decoder (sizes of the Read calls, zero-filled short reads) on the same reader, whether
-// a byte-string length above 64 KiB (or an element count above 64 Ki of zero-sized elements) would be
+// a byte-string length above 16 KiB (or an element count above 16 Ki of zero-sized elements) would be
 // reached.  It is not an oracle: it only selects inputs to skip, and skipped inputs are counted.
-const c12DangerLen = 1 << 16
+const c12DangerLen = 1 << 14
 
 type c12Shadow struct {
 	rd     *c12Reader
@@ -391,6 +391,20 @@ func c12WalkVecMaps(t *ref.C11Type, v *ref.C11Val, f func(mt *ref.C11Type, entri
 	}
 }
 
+// c12Try runs f and returns the panic value rendered as text ("" when f returned normally).
+func c12Try(f func()) (panicValue string) {
+	defer func() {
+		if x := recover(); x != nil {
+			panicValue = fmt.Sprint(x)
+			if panicValue == "" {
+				panicValue = "panic"
+			}
+		}
+	}()
+	f()
+	return ""
+}
+
 // c12Violate forwards a violation to the report; the description is only formatted for the first
 // three violations of a signature in this task (the report keeps three per signature anyway).
 func c12Violate(r *verifmc.Report, cnt *c11Counts, sig string, mk func() (string, any)) {
@@ -407,8 +421,8 @@ func c12Violate(r *verifmc.Report, cnt *c11Counts, sig string, mk func() (string
 // It returns true when the decoder accepted the input.
 func c12Check(r *verifmc.Report, cnt *c11Counts, t *ref.C11Type, input []byte, mode, k int, class string) bool {
 	if c12Dangerous(t, input, mode, k) {
-		cnt.add["skipped_declares_over_64KiB"]++
-		cnt.outcome[class+":not-executed-declares-over-64KiB (allocation phase decides the clause)"]++
+		cnt.add["skipped_declares_over_16KiB"]++
+		cnt.outcome[class+":not-executed-declares-over-16KiB (allocation phase decides the clause)"]++
 		return false
 	}
 	cnt.add["evaluations"]++
@@ -429,9 +443,19 @@ func c12Check(r *verifmc.Report, cnt *c11Counts, t *ref.C11Type, input []byte, m
 			suffix = "/zero-nil-reader"
 		}
 	}
-	if p, msg := verifmc.Guard(func() { err = NewDecoder(rd).Decode(dest.Interface()) }); p {
+	if pv := c12Try(func() { err = NewDecoder(rd).Decode(dest.Interface()) }); pv != "" {
 		cnt.outcome[class+":panic"]++
-		c12Violate(r, cnt, "Decode:panic@"+c11PanicSite(msg)+suffix, func() (string, any) {
+		// the stack is captured (expensive) once per distinct panic message and task, by re-running the input
+		site, ok := cnt.sites[pv]
+		msg := pv
+		if !ok {
+			_, msg = verifmc.Guard(func() {
+				_ = NewDecoder(&c12Reader{data: input, mode: mode, k: k}).Decode(c11Dest(t).Interface())
+			})
+			site = c11PanicSite(msg)
+			cnt.sites[pv] = site
+		}
+		c12Violate(r, cnt, "Decode:panic@"+site+suffix, func() (string, any) {
 			return fmt.Sprintf("decoding %x into %s panics: %s", input, ref.C11Name(t), msg), mk()
 		})
 		return false
@@ -608,9 +632,13 @@ func c12TypeTask(r *verifmc.Report, t *ref.C11Type, depth int) {
 
 // ---- allocation clause ----
 
-func c12AllocOf(f func()) uint64 {
+// c12AllocOf measures the bytes allocated by f (minimum of two runs; GiB-sized cases are run once).
+func c12AllocOf(twice bool, f func()) uint64 {
 	best := ^uint64(0)
 	for i := 0; i < 2; i++ {
+		if i == 1 && !twice {
+			break
+		}
 		runtime.GC()
 		var a, b runtime.MemStats
 		runtime.ReadMemStats(&a)
@@ -636,7 +664,7 @@ func c12AllocPhase(r *verifmc.Report) {
 	bytesStruct := c11Tuple(nil, c11U8T, c11BytesT)
 	cases := []tcase{
 		{c11BytesT, nil, true},
-		{c11StrT, nil, true},
+		{c11StrT, nil, false},
 		{c11Option(c11BytesT), []byte{1}, false},
 		{bytesStruct, []byte{7}, false},
 		{c11Vec(c11BytesT), []byte{4}, false},
@@ -645,15 +673,15 @@ func c12AllocPhase(r *verifmc.Report) {
 		{c11EnumT, []byte{1, 0}, false},
 		// element-wise containers: the declared count must not be pre-allocated either
 		{c11Vec(c11U32T), nil, true},
-		{c11Vec(c11BoolT), nil, true},
+		{c11Vec(c11BoolT), nil, false},
 		{c11Map(c11U8T, c11U8T), nil, true},
 		{c11Vec(c11Vec(c11U8T)), nil, false},
 	}
-	payloads := [][]byte{{}, {0x01}, {0x01, 0x02, 0x03}}
+	payloads := [][]byte{{}, {0x01, 0x02, 0x03}}
 	for _, c := range cases {
-		lens := []uint64{1 << 14, 1 << 20, 1 << 30}
+		lens := []uint64{1 << 14, 1 << 20, 1 << 26}
 		if c.big {
-			lens = append(lens, 1<<32-1)
+			lens = append(lens, 1<<30, 1<<32-1)
 		}
 		for _, l := range lens {
 			for _, pl := range payloads {
@@ -664,7 +692,7 @@ func c12AllocPhase(r *verifmc.Report) {
 				var err error
 				var accepted bool
 				var panicMsg string
-				alloc := c12AllocOf(func() {
+				alloc := c12AllocOf(l < 1<<30, func() {
 					dest := c11Dest(c.t)
 					p, msg := verifmc.Guard(func() { err = Unmarshal(in, dest.Interface()) })
 					if p {
@@ -697,7 +725,7 @@ func c12AllocPhase(r *verifmc.Report) {
 		for _, v := range c11Values(t, true) {
 			e := ref.C11Enc(t, v)
 			cnt.add["alloc_measurements"]++
-			alloc := c12AllocOf(func() {
+			alloc := c12AllocOf(true, func() {
 				dest := c11Dest(t)
 				_ = Unmarshal(e, dest.Interface())
 			})
@@ -730,7 +758,7 @@ func TestVerif_C12(t *testing.T) {
 	defer r.Write()
 	depth := 2
 	cat := c11Catalogue(depth)
-	r.Rule = fmt.Sprintf("for every type of the C11 catalogue (depth %d): every byte string of length <=%d (leaves), <=2 (depth 1), <=%d (depth 2); for the canonical encoding of every boundary value: the encoding through a whole-buffer reader, a one-byte-per-Read reader, a reader alternating (0,nil) reads and a two-chunk reader split at every position; every truncation (whole and one-byte readers); every single-byte substitution (all 255 values for encodings up to %d bytes at depth<=1, else 19 mode/tag/extreme values per position); one appended byte; crafted length prefixes 2^14, 2^20, 2^30, 2^32-1 in front of 0/1/3 payload bytes with TotalAlloc measured (sequentially, minimum of two runs, bound 64*len+256KiB).  Oracle: an accepted input must re-encode (reference encoder) to exactly the bytes taken from the reader.  A case is non-trivial when the decoder accepts it.", depth, verifmc.Pick(2, 3), verifmc.Pick(1, 2), verifmc.Pick(12, 24))
+	r.Rule = fmt.Sprintf("for every type of the C11 catalogue (depth %d): every byte string of length <=%d (leaves), <=2 (depth 1), <=%d (depth 2); for the canonical encoding of every boundary value: the encoding through a whole-buffer reader, a one-byte-per-Read reader, a reader alternating (0,nil) reads and a two-chunk reader split at every position; every truncation (whole and one-byte readers); every single-byte substitution (all 255 values for encodings up to %d bytes at depth<=1, else 19 mode/tag/extreme values per position); one appended byte; crafted length prefixes 2^14, 2^20, 2^26 (and 2^30, 2^32-1 for []byte, []uint32, map) in front of 0/3 payload bytes with TotalAlloc measured (sequentially, minimum of two runs, bound 64*len+256KiB).  Oracle: an accepted input must re-encode (reference encoder) to exactly the bytes taken from the reader.  A case is non-trivial when the decoder accepts it.", depth, verifmc.Pick(2, 3), verifmc.Pick(1, 2), verifmc.Pick(12, 24))
 	// reference decoder sanity (strictness) against specification examples
 	for _, c := range []struct {
 		in  string
